@@ -466,8 +466,14 @@ Definition convert (src : chars) (var_indent offset : nat) : option chars :=
 (* ---- format_multiline_strings on one line ---- *)
 Definition leading_ws (l : chars) : nat := List.length (take_while is_ws l).
 
-(* None: a span outside the model (string prefix, named escape).  [rest] is the source from the
-   start of the current match to the end of the line: indentation and span are taken from it *)
+(* old occurs in src (str.replace has something to replace) *)
+Fixpoint occurs (old src : chars) : bool :=
+  is_prefix old src || match src with [] => false | _ :: r => occurs old r end.
+
+(* None: a span outside the model (string prefix, named escape) that str.replace would really use.
+   [rest] is the source from the start of the current match to the end of the line: indentation and span are
+   taken from it.  When the span does not occur in the text rewritten so far, replace leaves the text as it is
+   whatever convert_to_multiline_string returned, so convert is not consulted. *)
 Fixpoint format_iter (fuel : nat) (rest cur : chars) (offset : nat) : option chars :=
   match fuel with
   | O => Some cur
@@ -477,10 +483,12 @@ Fixpoint format_iter (fuel : nat) (rest cur : chars) (offset : nat) : option cha
       | Some (_, rest') =>
           match quoted_span rest with
           | Some span =>
-              match convert span (leading_ws rest) offset with
-              | Some new => format_iter f rest' (replace_all (S (List.length cur)) cur span new) offset
-              | None => None
-              end
+              if occurs span cur then
+                match convert span (leading_ws rest) offset with
+                | Some new => format_iter f rest' (replace_all (S (List.length cur)) cur span new) offset
+                | None => None
+                end
+              else format_iter f rest' cur offset
           | None => format_iter f rest' cur offset
           end
       end
